@@ -1,1 +1,468 @@
-fn main() {}
+//! C03 part (b) — a wake-up from any thread is never lost: real runtime, real threads, both
+//! drivers, and the external event loop of compio-compat (`RuntimeCompat<TokioAdapter>::execute` on
+//! a current-thread tokio runtime).  DESIGN §3 C03 (b).
+//!
+//! Every target future (the main future and 0-3 spawned tasks) follows the contract every waker
+//! user follows: an *event* is posted (a counter is incremented), then the target's waker is
+//! invoked from a plain OS thread.  The future registers its waker, then reads the counter; it
+//! completes once it has observed all events.  If a wake is lost the runtime stays blocked in its
+//! driver with an event posted and unobserved.  The verdict is never a matter of timing: when the
+//! watchdog expires the harness applies ONE semantically redundant wake; if that makes the runtime
+//! observe the posted events, the original wake was lost (violation), otherwise the case is
+//! inconclusive.
+
+use std::{
+    future::Future,
+    pin::Pin,
+    sync::{
+        atomic::{AtomicBool, AtomicU64, Ordering::SeqCst},
+        mpsc, Arc, Mutex,
+    },
+    task::{Context, Poll, Waker},
+    time::{Duration, Instant},
+};
+
+use compio_driver::{DriverType, ProactorBuilder};
+use serde::{Deserialize, Serialize};
+use vcore::{
+    mono_ix,
+    proptest::{collection::vec, prelude::*},
+    Outcome, Part, Session,
+};
+
+// ------------------------------------------------------------------------------------------------
+// case
+
+#[derive(Debug, Clone, Copy, Serialize, Deserialize, PartialEq)]
+pub enum Mode {
+    /// `Runtime::block_on`: the runtime blocks in its own driver
+    Native,
+    /// `RuntimeCompat<TokioAdapter>::execute`: tokio waits on the driver's descriptor
+    CompatTokio,
+}
+
+#[derive(Debug, Clone, Copy, Serialize, Deserialize, PartialEq)]
+pub enum How {
+    ByRef,
+    /// `waker.clone().wake()`
+    ByValue,
+    /// clone, drop the clone, then `wake_by_ref`
+    CloneDrop,
+    /// two wakes back to back for one event (coalescing)
+    Twice,
+}
+
+#[derive(Debug, Clone, Copy, Serialize, Deserialize)]
+pub struct WakeOp {
+    /// raw draw -> target: 0 = the main future, 1.. = spawned task
+    pub target: u16,
+    /// wait until the runtime has observed everything posted so far (it then goes idle: the main
+    /// future returns Pending with nothing else to do and the runtime blocks in its driver)
+    pub settle: bool,
+    /// then busy-wait that many microseconds before waking
+    pub spin_us: u16,
+    pub how: How,
+}
+
+#[derive(Debug, Clone, Serialize, Deserialize)]
+pub struct Case {
+    pub mode: Mode,
+    pub iour: bool,
+    /// raw draw -> sync queue size in {1, 2, 3, 64}
+    pub queue: u16,
+    /// spawned tasks besides the main future
+    pub tasks: u8,
+    /// one list per waking thread
+    pub threads: Vec<Vec<WakeOp>>,
+}
+
+const QUEUES: [usize; 4] = [1, 2, 3, 64];
+
+fn strategy() -> impl Strategy<Value = Case> + Clone {
+    let how = prop_oneof![4 => Just(How::ByRef), 2 => Just(How::ByValue), 1 => Just(How::CloneDrop), 1 => Just(How::Twice)];
+    let spin = prop_oneof![3 => Just(0u16), 3 => 1u16..30, 3 => 30u16..600, 1 => 600u16..3000];
+    let op = (any::<u16>(), prop_oneof![3 => Just(true), 2 => Just(false)], spin, how).prop_map(|(target, settle, spin_us, how)| WakeOp { target, settle, spin_us, how });
+    (prop_oneof![Just(Mode::Native), Just(Mode::CompatTokio)], any::<bool>(), any::<u16>(), 0u8..=3, vec(vec(op, 1..6), 1..=4))
+        .prop_map(|(mode, iour, queue, tasks, threads)| Case { mode, iour, queue, tasks, threads })
+        .sboxed()
+}
+
+// ------------------------------------------------------------------------------------------------
+// instrumented targets
+
+struct Target {
+    /// events posted so far
+    posted: AtomicU64,
+    /// events whose wake() call has returned
+    woken: AtomicU64,
+    /// highest `posted` value a poll has observed
+    seen: AtomicU64,
+    polls: AtomicU64,
+    total: u64,
+    waker: Mutex<Option<Waker>>,
+}
+
+struct Shared {
+    targets: Vec<Arc<Target>>,
+    /// nanoseconds (since `t0`) at which the last poll of any target ended
+    last_poll_end: AtomicU64,
+    t0: Instant,
+    abort: AtomicBool,
+    /// makes every target complete at its next poll (teardown after a verdict)
+    force_done: AtomicBool,
+}
+
+struct Observe {
+    sh: Arc<Shared>,
+    ix: usize,
+}
+
+impl Future for Observe {
+    type Output = ();
+
+    fn poll(self: Pin<&mut Self>, cx: &mut Context<'_>) -> Poll<()> {
+        let t = &self.sh.targets[self.ix];
+        t.polls.fetch_add(1, SeqCst);
+        {
+            // register first, read afterwards: an event posted after the read finds this waker
+            let mut w = t.waker.lock().unwrap();
+            if !w.as_ref().is_some_and(|w| w.will_wake(cx.waker())) {
+                *w = Some(cx.waker().clone());
+            }
+        }
+        let posted = t.posted.load(SeqCst);
+        t.seen.fetch_max(posted, SeqCst);
+        let done = posted == t.total || self.sh.force_done.load(SeqCst);
+        self.sh.last_poll_end.store(self.sh.t0.elapsed().as_nanos() as u64, SeqCst);
+        if done {
+            Poll::Ready(())
+        } else {
+            Poll::Pending
+        }
+    }
+}
+
+// ------------------------------------------------------------------------------------------------
+// interpreter
+
+/// ≥ 20x the slowest case seen on the loaded machine (cases take milliseconds); a hit is judged by
+/// the rescue rule, never by itself
+const WATCHDOG: Duration = Duration::from_secs(12);
+const RESCUE: Duration = Duration::from_secs(3);
+
+fn busy_wait(us: u64) {
+    let s = Instant::now();
+    while (s.elapsed().as_nanos() as u64) < us * 1000 {
+        std::hint::spin_loop();
+    }
+}
+
+#[derive(Default)]
+struct ThreadStats {
+    wakes: u64,
+    /// wakes issued when no target had been polled for >= 200 µs (the runtime was most probably blocked)
+    while_idle: u64,
+    /// wakes issued < 20 µs after a poll ended (around the transition into the blocking call)
+    near_poll_end: u64,
+}
+
+fn run(case: &Case) -> Outcome {
+    let ntargets = 1 + case.tasks as usize;
+    let mut totals = vec![0u64; ntargets];
+    for t in &case.threads {
+        for op in t {
+            totals[mono_ix(op.target, ntargets)] += 1;
+        }
+    }
+    let sh = Arc::new(Shared {
+        targets: totals
+            .iter()
+            .map(|&total| Arc::new(Target { posted: AtomicU64::new(0), woken: AtomicU64::new(0), seen: AtomicU64::new(0), polls: AtomicU64::new(0), total, waker: Mutex::new(None) }))
+            .collect(),
+        last_poll_end: AtomicU64::new(0),
+        t0: Instant::now(),
+        abort: AtomicBool::new(false),
+        force_done: AtomicBool::new(false),
+    });
+
+    // ---- runtime thread
+    let (done_tx, done_rx) = mpsc::channel::<Result<(), String>>();
+    let sh_rt = sh.clone();
+    let c = case.clone();
+    let rt_thread = std::thread::Builder::new()
+        .name("c03b-runtime".into())
+        .spawn(move || {
+            let r = (|| -> Result<(), String> {
+                let mut pb = ProactorBuilder::new();
+                pb.driver_type(if c.iour { DriverType::IoUring } else { DriverType::Poll });
+                let rt = compio_runtime::RuntimeBuilder::new().with_proactor(pb).sync_queue_size(QUEUES[mono_ix(c.queue, 4)]).build().map_err(|e| format!("runtime build: {e}"))?;
+                let sh = sh_rt.clone();
+                let ntasks = c.tasks as usize;
+                let main = async move {
+                    let handles: Vec<_> = (1..=ntasks).map(|ix| compio_runtime::spawn(Observe { sh: sh.clone(), ix })).collect();
+                    Observe { sh: sh.clone(), ix: 0 }.await;
+                    for h in handles {
+                        let _ = h.await;
+                    }
+                };
+                match c.mode {
+                    Mode::Native => {
+                        rt.block_on(main);
+                    }
+                    Mode::CompatTokio => {
+                        let trt = tokio::runtime::Builder::new_current_thread().enable_all().build().map_err(|e| format!("tokio build: {e}"))?;
+                        trt.block_on(async move {
+                            let compat = compio_compat::RuntimeCompat::<compio_compat::TokioAdapter>::new(rt).map_err(|e| format!("compat: {e}"))?;
+                            compat.execute(main).await;
+                            Ok::<(), String>(())
+                        })?;
+                    }
+                }
+                Ok(())
+            })();
+            let _ = done_tx.send(r);
+        });
+    let rt_thread = match rt_thread {
+        Ok(t) => t,
+        Err(e) => return Outcome::inconclusive(format!("spawn: {e}")),
+    };
+
+    // wait until the runtime is up: the main future has been polled once
+    let start = Instant::now();
+    while sh.targets[0].polls.load(SeqCst) == 0 {
+        if let Ok(r) = done_rx.try_recv() {
+            let _ = rt_thread.join();
+            return match r {
+                Err(e) => Outcome::inconclusive(e),
+                Ok(()) => Outcome::pass(false, &["no-events"]),
+            };
+        }
+        if start.elapsed() > WATCHDOG {
+            return Outcome::inconclusive("runtime thread did not start polling");
+        }
+        std::thread::yield_now();
+    }
+
+    // ---- waking threads
+    let mut wakers = vec![];
+    for (ti, ops) in case.threads.iter().enumerate() {
+        let sh = sh.clone();
+        let ops = ops.clone();
+        wakers.push(
+            std::thread::Builder::new()
+                .name(format!("c03b-waker-{ti}"))
+                .spawn(move || {
+                    let mut st = ThreadStats::default();
+                    for op in ops {
+                        let t = &sh.targets[mono_ix(op.target, sh.targets.len())];
+                        if op.settle {
+                            // everything posted so far has been observed: the runtime has nothing left to do
+                            while !sh.targets.iter().all(|t| t.seen.load(SeqCst) >= t.posted.load(SeqCst)) {
+                                if sh.abort.load(SeqCst) {
+                                    return st;
+                                }
+                                std::hint::spin_loop();
+                            }
+                        }
+                        busy_wait(op.spin_us as u64);
+                        // a spawned task registers its waker at its first poll
+                        let w = loop {
+                            if let Some(w) = t.waker.lock().unwrap().clone() {
+                                break w;
+                            }
+                            if sh.abort.load(SeqCst) {
+                                return st;
+                            }
+                            std::thread::yield_now();
+                        };
+                        let since_poll = (sh.t0.elapsed().as_nanos() as u64).saturating_sub(sh.last_poll_end.load(SeqCst));
+                        t.posted.fetch_add(1, SeqCst);
+                        match op.how {
+                            How::ByRef => w.wake_by_ref(),
+                            How::ByValue => w.clone().wake(),
+                            How::CloneDrop => {
+                                drop(w.clone());
+                                w.wake_by_ref()
+                            }
+                            How::Twice => {
+                                w.wake_by_ref();
+                                w.wake_by_ref()
+                            }
+                        }
+                        t.woken.fetch_add(1, SeqCst);
+                        st.wakes += 1;
+                        if since_poll >= 200_000 {
+                            st.while_idle += 1;
+                        } else if since_poll < 20_000 {
+                            st.near_poll_end += 1;
+                        }
+                    }
+                    st
+                })
+                .expect("spawn waker thread"),
+        );
+    }
+
+    // ---- wait for the runtime to finish
+    let sig_mode = match (case.mode, case.iour) {
+        (Mode::Native, true) => "native/io-uring",
+        (Mode::Native, false) => "native/poll",
+        (Mode::CompatTokio, true) => "compat-tokio/io-uring",
+        (Mode::CompatTokio, false) => "compat-tokio/poll",
+    };
+    let verdict: Result<(), Outcome> = match done_rx.recv_timeout(WATCHDOG) {
+        Ok(Ok(())) => Ok(()),
+        Ok(Err(e)) => Err(Outcome::inconclusive(e)),
+        Err(_) => {
+            // rescue rule.  Candidates: events posted, their wake() returned, and still unobserved.
+            let lost: Vec<usize> = (0..ntargets)
+                .filter(|&i| {
+                    let t = &sh.targets[i];
+                    let p = t.posted.load(SeqCst);
+                    t.woken.load(SeqCst) == p && t.seen.load(SeqCst) < p
+                })
+                .collect();
+            let snapshot: Vec<String> = (0..ntargets)
+                .map(|i| {
+                    let t = &sh.targets[i];
+                    format!("target{i}: posted {} woken {} seen {} of {} polls {}", t.posted.load(SeqCst), t.woken.load(SeqCst), t.seen.load(SeqCst), t.total, t.polls.load(SeqCst))
+                })
+                .collect();
+            let out = if lost.is_empty() {
+                Outcome::inconclusive(format!("watchdog without an unobserved posted event ({})", snapshot.join("; ")))
+            } else {
+                // ONE redundant wake of one affected target
+                let i = lost[0];
+                let before: Vec<u64> = sh.targets.iter().map(|t| t.polls.load(SeqCst)).collect();
+                if let Some(w) = sh.targets[i].waker.lock().unwrap().clone() {
+                    w.wake_by_ref();
+                }
+                let s = Instant::now();
+                let mut rescued = false;
+                while s.elapsed() < RESCUE {
+                    let t = &sh.targets[i];
+                    if t.seen.load(SeqCst) >= t.posted.load(SeqCst) {
+                        rescued = true;
+                        break;
+                    }
+                    std::thread::sleep(Duration::from_millis(2));
+                }
+                if rescued {
+                    Outcome::violation(
+                        format!("C03/real/{sig_mode}/lost-wake/{}", if i == 0 { "main-future" } else { "spawned-task" }),
+                        format!(
+                            "an event was posted and wake() returned, the runtime did not poll the target for {WATCHDOG:?}; one redundant wake made it observe the event (polls before the rescue {before:?}). {}",
+                            snapshot.join("; ")
+                        ),
+                    )
+                } else {
+                    Outcome::inconclusive(format!("watchdog, the redundant wake did not help ({})", snapshot.join("; ")))
+                }
+            };
+            Err(out)
+        }
+    };
+
+    // ---- teardown: no thread outlives the case
+    sh.abort.store(true, SeqCst);
+    let mut stats = ThreadStats::default();
+    for w in wakers {
+        if let Ok(s) = w.join() {
+            stats.wakes += s.wakes;
+            stats.while_idle += s.while_idle;
+            stats.near_poll_end += s.near_poll_end;
+        }
+    }
+    if verdict.is_err() {
+        sh.force_done.store(true, SeqCst);
+        let s = Instant::now();
+        loop {
+            for t in &sh.targets {
+                if let Some(w) = t.waker.lock().unwrap().clone() {
+                    w.wake_by_ref();
+                }
+            }
+            if done_rx.recv_timeout(Duration::from_millis(50)).is_ok() {
+                let _ = rt_thread.join();
+                break;
+            }
+            if s.elapsed() > WATCHDOG {
+                // a runtime that cannot be woken at all: leave the thread behind (reported by the verdict)
+                break;
+            }
+        }
+    } else {
+        let _ = rt_thread.join();
+    }
+    if let Err(o) = verdict {
+        return o;
+    }
+
+    // every event was observed, hence every target was polled after its last wake
+    for (i, t) in sh.targets.iter().enumerate() {
+        if t.seen.load(SeqCst) != t.total || t.posted.load(SeqCst) != t.total {
+            return Outcome::violation("C03/real/HARNESS-accounting", format!("target{i}: seen {} posted {} total {}", t.seen.load(SeqCst), t.posted.load(SeqCst), t.total));
+        }
+    }
+    let mut labels = vec![format!("mode:{sig_mode}"), format!("queue:{}", QUEUES[mono_ix(case.queue, 4)]), format!("threads:{}", case.threads.len()), format!("tasks:{}", case.tasks)];
+    if stats.while_idle > 0 {
+        labels.push("wake-while-runtime-idle>=200us".into());
+    }
+    if stats.near_poll_end > 0 {
+        labels.push("wake<20us-after-a-poll".into());
+    }
+    if case.threads.len() > 1 {
+        labels.push("concurrent-wakers".into());
+    }
+    if totals.iter().skip(1).any(|&t| t > 0) {
+        labels.push("cross-thread-task-wake(sync queue)".into());
+    }
+    Outcome::pass_owned(stats.while_idle > 0, labels)
+}
+
+fn main() {
+    let mut s = Session::new();
+    let mut p = Part::new(
+        "C03",
+        "real-threads",
+        "case = {Runtime::block_on | RuntimeCompat<TokioAdapter>::execute on a current-thread tokio runtime; driver io-uring | poll; \
+         sync queue size in {1,2,3,64}; main future + 0-3 spawned tasks, all instrumented (register waker, then read the event counter, \
+         count polls); 1-4 OS threads each with 1-5 operations {target, settle = wait until the runtime has observed everything posted \
+         and therefore went idle, busy-wait 0-3000 us, post an event and wake (wake_by_ref | clone().wake() | clone+drop+wake_by_ref | \
+         twice)}}. Oracle: the runtime finishes, i.e. every target observes every posted event, i.e. it is polled again after the last \
+         wake returned; a runtime that is still blocked after the watchdog is judged by the rescue rule (one redundant wake makes it \
+         observe the event => the original wake was lost => violation; otherwise inconclusive). Non-trivial = at least one wake issued \
+         when no target had been polled for >= 200 us (main future Pending, nothing else to do: the runtime thread was inside its \
+         blocking driver poll / tokio was waiting on the driver descriptor).",
+    );
+    p.quick_cases = 600;
+    p.thorough_cases = 12_000;
+    p.threads = 2;
+    p.replay_repeats = 100;
+    p.max_shrink_iters = 12;
+    let op = |target, settle, spin_us, how| WakeOp { target, settle, spin_us, how };
+    p.regressions = vec![
+        (
+            "blocked-then-woken-native-iour",
+            Case { mode: Mode::Native, iour: true, queue: 0, tasks: 2, threads: vec![vec![op(0, true, 800, How::ByRef), op(30000, true, 800, How::ByValue), op(65535, true, 0, How::Twice)], vec![op(65535, false, 0, How::ByRef); 5]] },
+        ),
+        (
+            "blocked-then-woken-native-poll",
+            Case { mode: Mode::Native, iour: false, queue: 0, tasks: 2, threads: vec![vec![op(0, true, 800, How::ByRef), op(30000, true, 800, How::ByValue), op(65535, true, 0, How::Twice)], vec![op(65535, false, 0, How::ByRef); 5]] },
+        ),
+        (
+            "blocked-then-woken-compat-iour",
+            Case { mode: Mode::CompatTokio, iour: true, queue: 0, tasks: 1, threads: vec![vec![op(0, true, 800, How::ByRef), op(65535, true, 500, How::ByRef), op(0, true, 0, How::CloneDrop)], vec![op(0, false, 3, How::ByRef); 4]] },
+        ),
+        (
+            "blocked-then-woken-compat-poll",
+            Case { mode: Mode::CompatTokio, iour: false, queue: 0, tasks: 1, threads: vec![vec![op(0, true, 800, How::ByRef), op(65535, true, 500, How::ByRef), op(0, true, 0, How::CloneDrop)], vec![op(0, false, 3, How::ByRef); 4]] },
+        ),
+    ];
+    p.assumptions = vec![
+        "thread interleavings belong to the OS: cases are generated, schedules are not (the shuttle part c03a owns the schedules of the executor and the awake flag)",
+        "the future follows the register-then-read protocol, so a poll that starts after the event was posted observes it",
+    ];
+    s.run_part(p, strategy(), run);
+    s.finish();
+}
